@@ -141,6 +141,24 @@ func (w *World) checkStored(u string) {
 		w.fail("read-stale", "Get", "-", fmt.Sprintf("uuid %s (got uuid %s)\n got  %s\n want %s", short(u), short(r.UUID()), g, e))
 		return
 	}
+	// a caller refreshing an object it already holds and has changed since: the read reports the
+	// stored values, not a mixture of the file's and the caller's (fields the file omits, map keys)
+	in2 := &Rec{O: 7777, S: "caller's", Tags: []string{"caller's"}, M: map[string][]*Sub{"caller's": nil}, N: &Nested{S: "caller's"}}
+	in2.Initialize(u)
+	if w.call("Get", func() { o, err = w.db.Get(in2) }) {
+		return
+	}
+	if err != nil {
+		w.fail("read-missing", "Get(caller's object)", "-", fmt.Sprintf("%s: %v", short(u), err))
+		return
+	}
+	if r, ok := o.(*Rec); !ok || r == nil {
+		w.fail("read-badtype", "Get(caller's object)", "-", fmt.Sprintf("%T", o))
+		return
+	} else if g, e := canonJSON(r), canonJSON(want); g != e || r.UUID() != u {
+		w.fail("read-mixed-with-caller-values", "Get(caller's object)", "-", fmt.Sprintf("uuid %s\n got  %s\n want %s", short(u), g, e))
+		return
+	}
 	if w.call("GetByUUID", func() { o, err = w.db.GetByUUID(&Rec{}, u) }) {
 		return
 	}
